@@ -733,6 +733,57 @@ def r12j(ctx, reg):
                        path=ch)
 
 
+DOCUMENT_SINGLETONS = {  # containers that exist once per part: reaching them from any element with `//` is the documented intent
+    "office:body", "text:tracked-changes", "text:variable-decls", "text:user-field-decls", "office:font-face-decls", "office:automatic-styles", "office:styles",
+    "office:master-styles", "office:meta", "office:settings", "office:scripts",
+}
+
+
+def r12k(ctx, reg):
+    """What an element says about itself is read from the element.
+
+    XPath evaluation on an lxml node starts at that node, but a query beginning with `//` (or `/`) starts at the root of the tree the node
+    lives in.  A property of an element class that looks its child up with `//child` therefore works on a free-standing element and returns
+    the *first such node of the whole document* once the element is attached (every annotation reporting the first annotation's creator).
+    Rule: in methods of Element subclasses and of the mixins they inherit (not of XmlPart subclasses, whose element is the root), no query
+    handed to get_element / get_elements / xpath on `self` starts with `/`, unless it addresses one of the per-document singleton containers.
+    """
+    repo = ctx.repo
+    ctx.rule("R12k", "element classes and their mixins query relative to self (no `//…` except the per-document singleton containers)", floor=40)
+    el = repo.cls("Element")
+    classes = set()
+    for c in element_classes(repo):
+        classes.add(c.name)
+        for b in c.mro:
+            if b is not el and not b.is_subclass_of("XmlPart") and b.name not in ("object",):
+                classes.add(b.name)
+    classes.add("Element")
+    n = 0
+    for cname in sorted(classes):
+        c = repo.find_class(cname)
+        if c is None:
+            continue
+        for name, fs in c.methods.items():
+            for f in fs:
+                qs = [(x, repo.fold(x.args[0], f.module, f.cls)) for x in walk_no_nested(f.node) if isinstance(x, ast.Call) and call_name(x) in ("get_element", "get_elements", "xpath", "get_element_list")
+                      and isinstance(x.func, ast.Attribute) and isinstance(x.func.value, ast.Name) and x.func.value.id == "self" and x.args]
+                for x, q in qs:
+                    if not isinstance(q, str):
+                        continue
+                    n += 1
+                    absolute = q.lstrip().startswith("/")
+                    tag = q.lstrip("/").split("/")[0].split("[")[0] if absolute else ""
+                    ok = not absolute or tag in DOCUMENT_SINGLETONS
+                    ctx.instance("R12k", f"{f.file}:{f.ident}", f"query {q!r} is " + ("relative to the element" if not absolute else ("a per-document container" if ok else "ABSOLUTE")),
+                                 ok=ok, nontrivial=absolute, line=x.lineno)
+                    if not ok:
+                        ctx.report("R12k", f, x, norm(x, 60),
+                                   f"{cname}.{name} looks up {q!r} from the root of the tree: on an element attached to a document it returns (and its setter writes into) the first "
+                                   f"such node of the whole document, not the element's own — the property values of the 2nd, 3rd … element of that kind are those of the first")
+    if n == 0:
+        raise AnalysisError("R12k: no constant XPath query on self found in element classes")
+
+
 def run(ctx):
     reg = build_registry(ctx.repo)
     ctx.extra["registry"] = {"modules_in_import_order": len(reg.order), "registrations": len(reg.regs), "tags": len(reg.tag2cls),
@@ -746,15 +797,24 @@ def run(ctx):
     r12gh(ctx, reg)
     r12i(ctx, reg)
     r12j(ctx, reg)
+    r12k(ctx, reg)
     # `clone` is one of the access paths of the property: a clone must be a detached copy of its own (rules shared with C10)
     from .c10 import r10c, r10g
     r10c(ctx)
     r10g(ctx)
+    # "parsing that XML yields … an equal XML infoset": no parser of the package may drop content (rule shared with C11)
+    from .c11 import r11h
+    r11h(ctx)
 
 
 from ..selftest import Seed, unparse_seed  # noqa: E402
 
 SEEDS = [
+    Seed("creator read with an absolute XPath again", "fault", "src/odfdo/mixin_dc_creator.py",
+         '        element = self.get_element("descendant::dc:creator")\n        if element is None:\n            return None', '        element = self.get_element("//dc:creator")\n        if element is None:\n            return None', "R12k"),
+    Seed("TOC reads its outline level from the first TOC source of the document", "fault", "src/odfdo/toc.py",
+         'source = self.get_element("text:table-of-content-source")\n        if source is None:\n            return None\n        return source.get_attribute_integer("text:outline-level")',
+         'source = self.get_element("//text:table-of-content-source")\n        if source is None:\n            return None\n        return source.get_attribute_integer("text:outline-level")', "R12k"),
     Seed("Annotation sets its body last", "fault", "src/odfdo/note.py",
          "            self.note_body = text_or_element  # type:ignore\n            if creator:\n                self.creator = creator\n",
          "            if creator:\n                self.creator = creator\n            self.note_body = text_or_element  # type:ignore\n", "R12j"),
